@@ -2,7 +2,7 @@ import Tickit.Model.TermPen
 import Tickit.Driver.Common
 /-
   Engine `sgr` (C10).
-    new x <rgb8> <colon> <reply|ctl> | new g <colors> <rgb8> <colon> | new t
+    new x <rgb8> <colon> <reply|ctl> | new g <colors> <rgb8> <colon> | new t     (renew … = the same, mid-history)
     setpen <pen> | chpen <pen> | palette
   Model observation = what harness/sgr.c prints.  Specification verdict: the SGR interpreter of
   `Model/Sgr.lean` is run on the bytes the *implementation* emitted (configuration `x`), or on the
@@ -155,7 +155,11 @@ def penOp (st : DState) (op : Op) (impl : String) : DState × String × String :
                 else s!"no (delta, final) to interpret: implementation said '{impl}'")
     ({ st with cache := cache', logical := l', vt := vt' }, mobs, sv)
 
-def step (st : DState) (ts : List String) (impl : String) : DState × String × String :=
+def step (st : DState) (ts0 : List String) (impl : String) : DState × String × String :=
+  -- `renew …` = `new …` inside a running history: a fresh terminal, a fresh model
+  let ts := match ts0 with
+    | "renew" :: rest => "new" :: rest
+    | _ => ts0
   match ts with
   | ["new", "x", rgb8, colon, how] =>
     match int? rgb8, int? colon with
